@@ -1,0 +1,52 @@
+//go:build verif
+// +build verif
+
+package js_parser
+
+import (
+	"fmt"
+	"strings"
+)
+
+// This file is only compiled with the "verif" build tag.
+
+// VerifOptionsDigest renders, by value, every parser option that can influence
+// the result of parsing a file (pointer identities and the "defines" table,
+// which is fixed for the lifetime of a build context, are left out). The
+// format is a list of "name=value" items separated by ";".
+func VerifOptionsDigest(o *Options) string {
+	var sb strings.Builder
+	add := func(k string, v interface{}) { fmt.Fprintf(&sb, "%s=%v;", k, v) }
+	add("jsx.Factory", fmt.Sprintf("%q/%v", o.jsx.Factory.Parts, o.jsx.Factory.Constant != nil))
+	add("jsx.Fragment", fmt.Sprintf("%q/%v", o.jsx.Fragment.Parts, o.jsx.Fragment.Constant != nil))
+	add("jsx.Parse", o.jsx.Parse)
+	add("jsx.Preserve", o.jsx.Preserve)
+	add("jsx.AutomaticRuntime", o.jsx.AutomaticRuntime)
+	add("jsx.ImportSource", o.jsx.ImportSource)
+	add("jsx.Development", o.jsx.Development)
+	add("jsx.SideEffects", o.jsx.SideEffects)
+	if o.tsAlwaysStrict != nil {
+		add("tsAlwaysStrict", fmt.Sprintf("%s:%v", o.tsAlwaysStrict.Name, o.tsAlwaysStrict.Value))
+	} else {
+		add("tsAlwaysStrict", "nil")
+	}
+	if o.mangleProps != nil {
+		add("mangleProps", o.mangleProps.String())
+	}
+	if o.reserveProps != nil {
+		add("reserveProps", o.reserveProps.String())
+	}
+	add("dropLabels", fmt.Sprintf("%q", o.dropLabels))
+	for i, f := range o.injectedFiles {
+		add(fmt.Sprintf("inject[%d]", i), fmt.Sprintf("%s/%s/%d", f.Source.KeyPath.Text, f.DefineName, len(f.Exports)))
+	}
+	s := o.optionsThatSupportStructuralEquality
+	add("moduleType", s.moduleTypeData.Type)
+	s.moduleTypeData.Source = nil
+	s.moduleTypeData.Range.Loc.Start = 0
+	s.moduleTypeData.Range.Len = 0
+	s.moduleTypeData.Type = 0
+	add("ts.Config", fmt.Sprintf("%+v", s.ts.Config))
+	add("rest", fmt.Sprintf("%+v", s))
+	return sb.String()
+}
